@@ -44,7 +44,10 @@ def generate(prop, seed, tier='quick'):
         'seed': seed,
         'tier': tier,
         'config': config,
-        'knobs': dict(DEFAULT_KNOBS),
+        # lowered SQL batch / strategy thresholds in a third of the runs (failures are lifted to real key counts, see
+        # lift()); a few runs use real key counts at the shipped thresholds directly ('mass' extra objects per first add)
+        'knobs': dict(DEFAULT_KNOBS, in_sql=rng.choice([1, 2, 3, 5]), max_iter=rng.choice([0, 1, 2, 4, 9500])) if rng.random() < 0.35 else dict(DEFAULT_KNOBS),
+        'mass': 1000 if rng.random() < (0.02 if tier == 'quick' else 0.1) else 0,
         'pool': pool,
         'handles': handles,
         'ops': ops,
@@ -111,10 +114,20 @@ class HandlesOracle:
         self.nontrivial = False
         self.outcomes = []
         self.checked_steps = 0
+        self.mass_done = False
 
     def after(self, world, side, op, info, pre):
         del info, pre
         self.checked_steps += 1
+        mass = world.case.get('mass', 0)
+        if mass and op['op'] == 'add_loose' and not self.mass_done:
+            # real key counts: the first add is accompanied by `mass` more small objects through the same handle
+            self.mass_done = True
+            handle = world.handle(side, op)
+            with SIM.quiet():
+                for i in range(mass):
+                    data = b'mass-%d' % i
+                    side.model[handle.add_object(data)] = data
         if op['op'] in ('pack_loose', 'clean') and any(h != 0 for h in self.queried):
             self.nontrivial = True
         with SIM.quiet():
@@ -181,3 +194,25 @@ def execute(case):
         SIM.reset(None)
         drop_scratch(root)
     return result
+
+
+def lift(case, result):
+    """Lowered SQL thresholds -> shipped thresholds with real key counts ('mass' objects added with the first add)."""
+    if result['ok'] or result.get('error') or case.get('knobs') == DEFAULT_KNOBS:
+        return case, result, None
+    from .shrink import vclass  # pylint: disable=import-outside-toplevel
+
+    lifted = dict(case, knobs=dict(DEFAULT_KNOBS))
+    res2 = execute(lifted)
+    if vclass(res2) == vclass(result) and not res2.get('error'):
+        return lifted, res2, 'lifted-as-is'
+    mass = 9600 if case['knobs']['max_iter'] < 9500 and case['knobs']['in_sql'] >= 950 else 1000
+    for count in (mass, 9600 if mass != 9600 and case['knobs']['max_iter'] < 9500 else None):
+        if count is None:
+            continue
+        scaled = dict(case, knobs=dict(DEFAULT_KNOBS), mass=count)
+        res3 = execute(scaled)
+        if vclass(res3) == vclass(result) and not res3.get('error'):
+            return scaled, res3, f'lifted-scaled (shipped thresholds, {count} extra objects)'
+    ok = dict(result, ok=True, candidate=result['violation'], violation=None)
+    return case, ok, 'knob-only-candidate'
